@@ -24,6 +24,8 @@ def run(tier, seed):
     R = fw.Runner(oracle.Oracle()) if br.runner_ok else None
     import webauthn
     perm = optsim.token_perm()
+    spy = fw.GlobalStateSpy()          # option generation does not re-configure the process either (random.seed, warning filters, ...)
+    spy.__enter__()
     nh, L = (60, 12) if quick else (800, 60)
     # caller values of every size and count pass through unchanged: these argument sets are used first, then the random ones
     forced = []
@@ -237,6 +239,8 @@ def run(tier, seed):
         chk.violation("byte values of generated challenges / user ids are not balanced (real OS source)", "real-source-balance", {"chi2": chi2, "missing": [b for b in range(256) if b not in hist]})
     if R:
         R.close()
+    spy.__exit__(None, None, None)
+    spy.report(chk)
     fw.env_invariance(chk, "options")          # the same seeded cases under -O / -OO, warnings-as-errors, other TZ / locale, a private CA bundle
     return fw.finish(chk, ob, br, TRUSTED,
                      ["distinct 64-byte draws of the OS source are distinct (premise of the never-repeat corollary)", "admissible argument values: non-empty strings, enum members, byte strings"],
